@@ -11,6 +11,8 @@ Driver ops of property C13 (date codecs and arithmetic).  One canonical line per
   iso y m d [h] | uiso y m d
   rawfmt short|wide|iso y m d h                 PdsDateFormatter on a RawDate
   adddays y m d n | until y m d y m d | cmp y m d y m d | dhcmp y m d h y m d h | rawcmp …
+  dvisit|dhvisit|udvisit <kind> <arg>           serde visitor after deserialize_any (kind: i32 str string char i64 u64 …)
+  dser y m d [h]                                Serialize (iso-8601 string)
   fdp <u64>                                     util::fast_digit_parse
   i64t <hex>                                    scalar::to_i64_t
   frombin-block <start> <count>                 FNV fold of Date/DateHour::from_binary over a range
@@ -189,6 +191,14 @@ def fmtOf : String → Option DateFormat
   | "iso" => some .iso8601
   | _ => none
 
+/-- `<kind> <arg>` of the visit ops: which `visit_*` the value deserializer calls -/
+def leafOf (kind arg : String) : Option LeafToken :=
+  match kind with
+  | "i32" => (parseInt? arg).map LeafToken.i32
+  | "str" | "string" | "char" => (parseHex arg).map LeafToken.str
+  | "i8" | "i16" | "i64" | "u8" | "u16" | "u32" | "u64" | "f64" | "bool" | "unit" | "bytes" => some .other
+  | _ => none
+
 def handle : Handler
   | ["dparse", h] => (parseHex h).map fun s => showOut showDate (Date.parse s)
   | ["dhparse", h] => (parseHex h).map fun s => showOut showDateHour (DateHour.parse s)
@@ -252,6 +262,15 @@ def handle : Handler
     pure (showOut showOrd
       ((RawDate.fromYmdhOpt y1 m1 d1 h1).bind fun a =>
         (RawDate.fromYmdhOpt y2 m2 d2 h2).bind fun b => .ok (a.cmp b)))
+  | ["dvisit", kind, arg] => (leafOf kind arg).map fun t => showOut showDate (Date.visit t)
+  | ["dhvisit", kind, arg] => (leafOf kind arg).map fun t => showOut showDateHour (DateHour.visit t)
+  | ["udvisit", kind, arg] => (leafOf kind arg).map fun t => showOut showUniform (UniformDate.visit t)
+  | ["dser", y, m, d] => do
+    let y ← parseInt? y; let m ← parseNat? m; let d ← parseNat? d
+    pure (showOut toHex ((Date.fromYmdOpt y m d).bind Date.serialize))
+  | ["dser", y, m, d, h] => do
+    let y ← parseInt? y; let m ← parseNat? m; let d ← parseNat? d; let h ← parseNat? h
+    pure (showOut toHex ((DateHour.fromYmdhOpt y m d h).bind DateHour.serialize))
   | ["fdp", v] => (parseNat? v).map fun v =>
       match fastDigitParse (BitVec.ofNat 64 v) with
       | some r => s!"ok {r.toNat}"
